@@ -103,10 +103,27 @@ def last(log): return log[-1]
 def nth(rec, j, *a): return rec[j]
 def unchanged(field): return True    # heap frame clauses are VC-only
 def has_dyn(obj, name): return hasattr(obj, name)
+def line_removed(before, after):
+    m = len(before) - len(after) - 1
+    return isinstance(before, bytes) and isinstance(after, bytes) and m >= 0 and before == before[:m] + b'\n' + after \
+        and b'\n' not in before[:m]
+
+
+def is_hashable(v):
+    try:
+        hash(v)
+        return True
+    except TypeError:
+        return False
+
+
 def is_prefix(a, b): return list(b[:len(a)]) == list(a)
-def forall_str(f): return True     # quantifiers over all strings are VC-only (loop invariants, representation invariants)
-def forall_int(f): return True
-def forall_obj(f): return True
+# quantifiers: unbounded in the VC; natively evaluated over the finite universes the bounded harness fills in
+# (empty universe = vacuous, as in replays of solver models)
+STR_UNIVERSE, INT_UNIVERSE, OBJ_UNIVERSE = [], [], []
+def forall_str(f): return all(f(s) for s in STR_UNIVERSE)
+def forall_int(f): return all(f(i) for i in INT_UNIVERSE)
+def forall_obj(f): return all(f(o) for o in OBJ_UNIVERSE)
 
 
 def enum_owned(e, v):
